@@ -236,6 +236,7 @@ struct CurOp {                 // context of the op currently executing in a tas
     uint8_t os_last_ok[32]; bool os_have_ok = false;
     int fds_open = 0; int fd_next = 0; int opens = 0, closes = 0;
     bool in_call = false;      // a library call is on this task's stack
+    int entry_errno = 0;       // errno value installed at every library entry of this op (plan data)
 };
 
 struct TaskState {
